@@ -295,7 +295,7 @@ func checkWindowOrder(c *Ctx, prop string) {
 	// insertion end: the freshly built header is stored at constant index 0 of the new slice,
 	// old element i goes to i+1
 	newestAtZero, shift := false, false
-	for _, b := range ins.Blocks {
+	for _, b := range blocksDeep(ins) {
 		for _, in := range b.Instrs {
 			st, ok := in.(*ssa.Store)
 			if !ok {
@@ -339,7 +339,7 @@ func checkWindowOrder(c *Ctx, prop string) {
 	// scan direction: the index used to read blockBFTInfos in contradicting() is a φ(−1|0, i+1) counter (ascending)
 	asc := false
 	detail := ""
-	for _, b := range con.Blocks {
+	for _, b := range blocksDeep(con) {
 		for _, in := range b.Instrs {
 			ia, ok := in.(*ssa.IndexAddr)
 			if !ok {
